@@ -223,6 +223,14 @@ func (w *World) Run(sc *Scenario, o RunOpts) *Outcome {
 	cmd.Stdin = stdin
 	var so, se bytes.Buffer
 	cmd.Stdout = &so
+	if sc.StdoutDevFull {
+		df, err := os.OpenFile("/dev/full", os.O_WRONLY, 0)
+		if err != nil {
+			harnessPanic("open /dev/full: %v", err)
+		}
+		defer df.Close()
+		cmd.Stdout = df
+	}
 	cmd.Stderr = &se
 	env := []string{
 		"PATH=/usr/bin:/bin", "HOME=" + work, "TMPDIR=" + tmp, "TZ=UTC", "LANG=C",
@@ -343,7 +351,11 @@ func (o *Outcome) Fired() []string {
 		switch {
 		case e.Decision == "pass" || e.Decision == "data" || e.Decision == "eof":
 		case strings.HasPrefix(e.Decision, "error:"):
-			res = append(res, e.Kind+"."+e.Site+"."+e.Decision)
+			site := e.Site
+			if e.Kind == "read" {
+				site = strings.SplitN(site, ":", 2)[0]
+			}
+			res = append(res, e.Kind+"."+site+"."+e.Decision)
 		case e.Decision == "kill":
 			res = append(res, e.Kind+"."+e.Site+".kill")
 		case strings.HasPrefix(e.Decision, "closefault"):
